@@ -221,8 +221,15 @@ def run_inject(spec, k=None):
         if not ids:
             res.skipped.append("no method registered at the fault point")
             return res
-        expected = fresh_expect(pspec, env, ids, spec["probes"])
-        check_probes(res, prog, env, spec["probes"], expected,
+        probes = list(spec["probes"])
+        if spec["scenario"] == "miss":
+            # first of all, reach the interrupted type tuple through a delegation from a call on OTHER argument types
+            # (a plain call on that tuple would simply redo, and thereby repair, the interrupted resolution)
+            later, first = spec["probes"][-1], spec["probes"][0]
+            for k in (0, 1):
+                probes.insert(0, {"args": first["args"], "kw": first["kw"], "script": [["site", k, later["args"], {}]]})
+        expected = fresh_expect(pspec, env, ids, probes)
+        check_probes(res, prog, env, probes, expected,
                      f"after a fault injected at {where[0]}:{where[1]} ({where[2]}) during '{spec['scenario']}' "
                      f"(line event {k}/{total})", True, spec)
     finally:
